@@ -8,6 +8,8 @@ Part 2 (`reads_exact`, see the end of the file): on `Spec.Frag01` the walk's tab
 -/
 import SqlLineage.Model.Runner
 import SqlLineage.Spec.Tables
+import SqlLineage.Proofs.ReadsExact
+import SqlLineage.Proofs.FragDev
 
 namespace SqlLineage.Props.C01
 open SqlLineage Ast Walk
@@ -61,5 +63,298 @@ theorem noop_summary_empty :
 theorem dispatch_total (env : Env) (s : Stmt) (h : dispatch (stmtType s) = none) :
     analyze env false s = .error .unsupported ∧ analyze env true s = .ok Graph.empty := by
   simp [analyze, h]
+
+
+/-! ## Part 2 — table‑level exactness of the walk (machine‑checked on the fragment `fragQ`)
+
+The FULL statement of the property is
+
+    theorem reads_exact (env) (silent) (s : Stmt) (hs : Spec.Frag01 s) (g) (hg : analyze env silent s = .ok g) :
+        (∀ t, t ∈ readNames g ↔ t ∈ Spec.reads env s) ∧ (∀ t, t ∈ writeNames g ↔ t ∈ Spec.writes env s)
+
+for every statement of the core AST outside the deviation classes of DESIGN §6 (`Spec.Frag01 s ⇔ Spec.deviations s = []`).
+What is PROVED below is `stmt_exact_partial`: the same conclusion under the stronger hypothesis `stmtFrag s`, i.e. for
+query‑bearing statements whose query satisfies `Proofs.ReadsExact.fragQ`.  `fragQ` is compositional and unbounded:
+derived tables at any depth and at any FROM position (base element, every JOIN, every comma position), set operations,
+WHERE subqueries `(q)`, `x IN (q)`, `EXISTS (q)` combined by binary operators — each nested query again in `fragQ`.
+
+What `_partial` lacks with respect to `Frag01`:
+  * WITH (`Query.withq`): needs an invariant relating `cteObjs g` (the CTE nodes the walk has registered, looked up by
+    alias with "last registered wins", payload aliases "first inserted wins") to the standard non‑recursive scoping of
+    `Spec.rdCtes`; the specification side is already general (`mem_rdQuery_iff` holds for every query and every scope);
+  * subqueries inside select items that `sqItems` does discover (function arguments, CAST operand, WHEN/THEN operands
+    of the first CASE): `Frag01` allows them (`nItemFound e = nSub e`), `fragQ` asks for subquery‑free items;
+  * a parenthesised WHERE operand whose first‑bracket chain reaches its only subquery (`Spec.chainFinds`).
+These shapes are covered by the differential check of `harness/c01.py` only.
+-/
+
+section exact
+open SqlLineage.Holder SqlLineage.Proofs.ReadsExact
+
+/-- names a statement holder reports as read / written (`StatementLineageHolder.read` / `.write`, printed) -/
+def readNames (g : LGraph) : List String := (Assemble.stmtRead g).map (printedNode g)
+def writeNames (g : LGraph) : List String := (Assemble.stmtWrite g).map (printedNode g)
+
+/-- read and write names follow from the READ / WRITE tags of the `Table`/`Path` nodes -/
+theorem exact_of_profile (g : LGraph) (R W : List DS) (hR : ∀ d ∈ R, d.isDataset = true) (hW : ∀ d ∈ W, d.isDataset = true)
+    (hr : ∀ d, d.isDataset = true → (g.tag (.ds d) .read = some true ↔ d ∈ R))
+    (hw : ∀ d, d.isDataset = true → (g.tag (.ds d) .write = some true ↔ d ∈ W)) :
+    (∀ t, t ∈ readNames g ↔ t ∈ R.map prDS) ∧ (∀ t, t ∈ writeNames g ↔ t ∈ W.map prDS) :=
+  ⟨names_tagged g .read R hr hR, names_tagged g .write W hw hW⟩
+
+/-- **the SELECT / set‑expression extractor reads exactly the specified tables** (and writes nothing) -/
+theorem reads_exact_partial (env : Env) (q : Query) (hq : fragQ q = true) (g : LGraph) (hg : exQuery env {} q = .ok g) :
+    (∀ t, t ∈ readNames g ↔ t ∈ Spec.rdQuery env [] q) ∧ (∀ t, t ∉ writeNames g) := by
+  have R := exQuery_ok env q {} g hq rfl hg
+  have E := exact_of_profile g (dsQuery env [] q) [] (fun d hd => dsQuery_isDataset env d q [] hd) (fun d hd => by cases hd)
+    (fun d hd => R.rd d hd) (fun d hd => R.wr d hd)
+  refine ⟨fun t => ?_, fun t => ?_⟩
+  · rw [E.1 t, mem_rdQuery_iff]
+  · rw [E.2 t]; simp
+
+/-- **INSERT … query / CTAS / CREATE VIEW: reads = the query's tables, writes = the target** -/
+theorem write_query_exact_partial (env : Env) (isInsert : Bool) (tgt : List String) (cols : Option (List String)) (q : Query)
+    (hq : fragQ q = true) (g : LGraph) (hg : exWriteQuery env isInsert tgt cols q = .ok g) :
+    (∀ t, t ∈ readNames g ↔ t ∈ Spec.rdQuery env [] q) ∧ (∀ t, t ∈ writeNames g ↔ t ∈ [Spec.tableName env tgt]) := by
+  have E := exact_of_profile g (dsQuery env [] q) [(mkTable env tgt none).d]
+    (fun d hd => dsQuery_isDataset env d q [] hd) (fun d hd => by rw [List.mem_singleton.mp hd]; rfl)
+    (fun d hd => (exWriteQuery_ok env isInsert tgt cols q hq g hg d hd).1)
+    (fun d hd => (exWriteQuery_ok env isInsert tgt cols q hq g hg d hd).2)
+  refine ⟨fun t => ?_, fun t => ?_⟩
+  · rw [E.1 t, mem_rdQuery_iff]
+  · rw [E.2 t]; rfl
+
+/-! ### every statement kind -/
+
+/-- statements the exactness theorem covers: query‑bearing statements with a query of the fragment, and all statement
+    kinds without a query that the model implements -/
+def stmtFrag : Stmt → Bool
+  | .query q _ => fragQ q
+  | .insert _ _ _ _ q _ => fragQ q
+  | .ctas _ _ _ q _ => fragQ q
+  | .createView _ _ _ q => fragQ q
+  | .insertValues .. => true
+  | .createTable .. => true
+  | .createTableLike .. => true
+  | .drop .. => true
+  | .alterRename .. => true
+  | .renameTable .. => true
+  | .noop .. => true
+  | _ => false
+
+theorem disp_select : dispatch "select_statement" = some "SelectExtractor" := by decide
+theorem disp_setexpr : dispatch "set_expression" = some "SelectExtractor" := by decide
+theorem disp_bracketed : dispatch "bracketed" = some "SelectExtractor" := by decide
+theorem disp_insert : dispatch "insert_statement" = some "CreateInsertExtractor" := by decide
+theorem disp_create_table : dispatch "create_table_statement" = some "CreateInsertExtractor" := by decide
+theorem disp_create_view : dispatch "create_view_statement" = some "CreateInsertExtractor" := by decide
+theorem disp_drop_table : dispatch "drop_table_statement" = some "DropExtractor" := by decide
+theorem disp_drop_view : dispatch "drop_view_statement" = some "DropExtractor" := by decide
+theorem disp_alter : dispatch "alter_table_statement" = some "RenameExtractor" := by decide
+theorem disp_rename : dispatch "rename_table_statement" = some "RenameExtractor" := by decide
+
+theorem analyze_query (env : Env) (silent : Bool) (q : Query) (b : Bool) (hq : fragQ q = true) :
+    analyze env silent (.query q b) = exQuery env {} q := by
+  cases q with
+  | select _ _ _ _ _ _ => cases b <;> simp [analyze, stmtType, disp_select, disp_bracketed]
+  | setop _ _ => cases b <;> simp [analyze, stmtType, disp_setexpr, disp_bracketed]
+  | withq _ _ => simp [fragQ] at hq
+
+/-- a graph without READ / WRITE tags reports nothing -/
+theorem exact_of_untagged (g : LGraph) (h : ∀ d t, t = Tag.read ∨ t = Tag.write → g.tag (.ds d) t = none) :
+    (∀ t, t ∈ readNames g ↔ t ∈ ([] : List String)) ∧ (∀ t, t ∈ writeNames g ↔ t ∈ ([] : List String)) :=
+  exact_of_profile g [] [] (fun d hd => by cases hd) (fun d hd => by cases hd)
+    (fun d _ => by rw [h d .read (Or.inl rfl)]; simp) (fun d _ => by rw [h d .write (Or.inr rfl)]; simp)
+
+theorem tag_w0 (env : Env) (tgt : List String) (d : DS) (t : Tag) :
+    (addWriteO Graph.empty (mkTable env tgt none)).tag (.ds d) t =
+      if d = (mkTable env tgt none).d ∧ t = .write then some true else none := by
+  rw [tag_addWriteO, Graph.tag_empty]; simp only [Node.ds.injEq]
+
+/-- a holder that only carries the WRITE tag of the target -/
+theorem exact_of_target (env : Env) (tgt : List String) (g : LGraph)
+    (h : ∀ d t, g.tag (.ds d) t = if d = (mkTable env tgt none).d ∧ t = .write then some true else none) :
+    (∀ t, t ∈ readNames g ↔ t ∈ ([] : List String)) ∧ (∀ t, t ∈ writeNames g ↔ t ∈ [Spec.tableName env tgt]) :=
+  exact_of_profile g [] [(mkTable env tgt none).d] (fun d hd => by cases hd)
+    (fun d hd => by rw [List.mem_singleton.mp hd]; rfl)
+    (fun d _ => by rw [h]; simp)
+    (fun d _ => by rw [h]; by_cases hx : d = (mkTable env tgt none).d <;> simp [hx])
+
+/-- **single‑statement table lineage is exact** on `stmtFrag` (see the header of this part for what is missing with
+    respect to `Spec.Frag01`) -/
+theorem stmt_exact_partial (env : Env) (silent : Bool) (s : Stmt) (hs : stmtFrag s = true) (g : LGraph)
+    (hg : analyze env silent s = .ok g) :
+    (∀ t, t ∈ readNames g ↔ t ∈ Spec.reads env s) ∧ (∀ t, t ∈ writeNames g ↔ t ∈ Spec.writes env s) := by
+  cases s with
+  | query q b =>
+    simp only [stmtFrag] at hs
+    rw [analyze_query env silent q b hs] at hg
+    have E := reads_exact_partial env q hs g hg
+    exact ⟨E.1, fun t => by simp [Spec.writes, E.2 t]⟩
+  | insert kind tk tgt cols q b =>
+    simp only [stmtFrag] at hs
+    simp only [analyze, stmtType, disp_insert] at hg
+    exact write_query_exact_partial env true tgt cols q hs g hg
+  | ctas tgt o i q b =>
+    simp only [stmtFrag] at hs
+    simp only [analyze, stmtType, disp_create_table] at hg
+    exact write_query_exact_partial env false tgt none q hs g hg
+  | createView tgt o cols q =>
+    simp only [stmtFrag] at hs
+    simp only [analyze, stmtType, disp_create_view] at hg
+    exact write_query_exact_partial env false tgt cols q hs g hg
+  | insertValues tgt cols rows =>
+    simp only [analyze, stmtType, disp_insert] at hg
+    rw [← ok_inj hg]
+    apply exact_of_target env tgt
+    intro d t
+    clear hg hs
+    cases cols with
+    | none =>
+      simp only
+      split
+      · rw [(sameDs_addWriteColumns _ _).eq, tag_w0]
+      · rw [tag_w0]
+    | some cs =>
+      simp only
+      rw [(sameDs_addWriteColumns _ _).eq]
+      split
+      · rw [(sameDs_addWriteColumns _ _).eq, tag_w0]
+      · rw [tag_w0]
+  | createTable tgt i cols =>
+    simp only [analyze, stmtType, disp_create_table] at hg
+    rw [← ok_inj hg]
+    apply exact_of_target env tgt
+    intro d t
+    rw [(sameDs_addWriteColumns _ _).eq, tag_w0]
+  | createTableLike tgt src =>
+    simp only [analyze, stmtType, disp_create_table] at hg
+    rw [← ok_inj hg]
+    have E := exact_of_profile (addReadO (addWriteO Graph.empty (mkTable env tgt none)) (mkTable env src none))
+      [(mkTable env src none).d] [(mkTable env tgt none).d]
+      (fun d hd => by rw [List.mem_singleton.mp hd]; rfl) (fun d hd => by rw [List.mem_singleton.mp hd]; rfl)
+      (fun d _ => by
+        rw [tag_addReadO, tag_w0]
+        by_cases hx : d = (mkTable env src none).d <;> simp [hx])
+      (fun d _ => by
+        rw [tag_addReadO, tag_w0]
+        by_cases hx : d = (mkTable env tgt none).d <;> simp [hx])
+    exact ⟨fun t => by rw [E.1 t]; rfl, fun t => by rw [E.2 t]; rfl⟩
+  | drop v ie tgt =>
+    have hg' : g = exDrop env tgt := by
+      cases v <;> simp only [analyze, stmtType, disp_drop_table, disp_drop_view] at hg <;> exact (ok_inj hg).symm
+    rw [hg']
+    apply exact_of_untagged
+    intro d t ht
+    unfold exDrop addDrop
+    rw [Graph.tag_setTag, Graph.tag_empty, if_neg]
+    rintro ⟨_, h2⟩
+    rcases ht with ht | ht <;> (rw [ht] at h2; cases h2)
+  | alterRename x y =>
+    simp only [analyze, stmtType, disp_alter] at hg
+    rw [← ok_inj hg]
+    apply exact_of_untagged
+    intro d t _
+    unfold exRename
+    exact foldl_inv (fun g : LGraph => g.tag (.ds d) t = none) _ _ _ (Graph.tag_empty _ _)
+      (fun b a _ hb => by unfold addRename; rw [Graph.tag_addEdge]; exact hb)
+  | renameTable ps =>
+    simp only [analyze, stmtType, disp_rename] at hg
+    rw [← ok_inj hg]
+    apply exact_of_untagged
+    intro d t _
+    unfold exRename
+    exact foldl_inv (fun g : LGraph => g.tag (.ds d) t = none) _ _ _ (Graph.tag_empty _ _)
+      (fun b a _ hb => by unfold addRename; rw [Graph.tag_addEdge]; exact hb)
+  | noop k sql =>
+    have hg' : g = Graph.empty := by
+      simp only [analyze, stmtType] at hg
+      split at hg
+      · split at hg
+        · exact (ok_inj hg).symm
+        · cases hg
+      · exact (ok_inj hg).symm
+    rw [hg']
+    exact exact_of_untagged _ (fun d t _ => Graph.tag_empty _ _)
+  | update _ _ _ _ _ => simp [stmtFrag] at hs
+  | merge _ _ _ _ _ _ => simp [stmtFrag] at hs
+  | copy _ _ => simp [stmtFrag] at hs
+  | unsupported _ => simp [stmtFrag] at hs
+
+/-- **the proved fragment lies inside `Spec.Frag01`**: a statement of `stmtFrag` falls in no deviation class, so
+    `stmt_exact_partial` is an instance of the full statement `reads_exact` (not a theorem about other inputs) -/
+theorem stmtFrag_sub_Frag01 (s : Stmt) (hs : stmtFrag s = true) : Spec.Frag01 s := by
+  unfold Spec.Frag01 Spec.deviations
+  cases s with
+  | query q b => simp only [stmtFrag] at hs; simp [Spec.stmtQuery?, fragQ_no_deviation q hs]
+  | insert kind tk tgt cols q b => simp only [stmtFrag] at hs; simp [Spec.stmtQuery?, fragQ_no_deviation q hs]
+  | ctas tgt o i q b => simp only [stmtFrag] at hs; simp [Spec.stmtQuery?, fragQ_no_deviation q hs]
+  | createView tgt o cols q => simp only [stmtFrag] at hs; simp [Spec.stmtQuery?, fragQ_no_deviation q hs]
+  | insertValues _ _ _ => rfl
+  | createTable _ _ _ => rfl
+  | createTableLike _ _ => rfl
+  | drop _ _ _ => rfl
+  | alterRename _ _ => rfl
+  | renameTable _ => rfl
+  | noop _ _ => rfl
+  | update _ _ _ _ _ => simp [stmtFrag] at hs
+  | merge _ _ _ _ _ _ => simp [stmtFrag] at hs
+  | copy _ _ => rfl
+  | unsupported _ => rfl
+
+/-! ### non‑vacuity: a nested statement inside the fragment on which the walk succeeds
+
+    INSERT INTO tgt
+    SELECT a.x FROM t1 a JOIN (SELECT y FROM t2 WHERE y IN (SELECT z FROM t3)) b ON a.x = b.y, t4
+    UNION ALL
+    SELECT x FROM (SELECT x FROM t5, t6) c WHERE EXISTS (SELECT 1 FROM s.t7)
+
+(derived table inside a join, comma list with a join, UNION branch, derived table holding a comma list, WHERE … IN
+(subquery) inside a derived table, EXISTS with a qualified table) -/
+
+def demoQ : Query :=
+  .setop
+    (.mk (.select false [.mk (.col ["a"] "x") none false]
+        [ .mk (.table ["t1"] (some "a") false)
+            [.mk "join" (.derived (.select false [.mk (.col [] "y") none false] [.mk (.table ["t2"] none false) []]
+                 (some (.inSubq (.col [] "y") false
+                    (.select false [.mk (.col [] "z") none false] [.mk (.table ["t3"] none false) []] none [] none))) [] none)
+                 (some "b") false)
+               (some (.bin "=" (.col ["a"] "x") (.col ["b"] "y"))) []],
+          .mk (.table ["t4"] none false) [] ]
+        none [] none) false)
+    [.mk "union all" (.mk (.select false [.mk (.col [] "x") none false]
+        [.mk (.derived (.select false [.mk (.col [] "x") none false]
+            [.mk (.table ["t5"] none false) [], .mk (.table ["t6"] none false) []] none [] none) (some "c") false) []]
+        (some (.exist false (.select false [.mk (.lit "1") none false] [.mk (.table ["s", "t7"] none false) []] none [] none)))
+        [] none) false)]
+
+def demoS : Stmt := .insert .insertInto false ["tgt"] none demoQ false
+
+example : stmtFrag demoS = true := by decide
+example : Spec.deviations demoS = [] := by decide +kernel
+set_option maxRecDepth 100000 in
+example : (analyze {} false demoS).toBool = true := by decide +kernel
+set_option maxRecDepth 100000 in
+example : ((analyze {} false demoS).map readNames).toOption =
+    some ["<default>.t3", "<default>.t2", "<default>.t5", "<default>.t6", "s.t7", "<default>.t1", "<default>.t4"] := by
+  decide +kernel
+set_option maxRecDepth 100000 in
+example : ((analyze {} false demoS).map writeNames).toOption = some ["<default>.tgt"] := by decide +kernel
+example : Spec.reads {} demoS =
+    ["<default>.t1", "<default>.t2", "<default>.t3", "<default>.t4", "<default>.t5", "<default>.t6", "s.t7"] := by
+  decide +kernel
+
+/-- the hypotheses of `stmt_exact_partial` are met by `demoS`: the theorem applies to the graph `analyze` returns -/
+example : ∃ g, analyze {} false demoS = .ok g ∧
+    (∀ t, t ∈ readNames g ↔ t ∈ Spec.reads {} demoS) ∧ (∀ t, t ∈ writeNames g ↔ t ∈ Spec.writes {} demoS) := by
+  cases h : analyze {} false demoS with
+  | error e =>
+    have : (analyze {} false demoS).toBool = true := by decide +kernel
+    rw [h] at this
+    cases this
+  | ok g => exact ⟨g, rfl, stmt_exact_partial {} false demoS (by decide) g h⟩
+
+end exact
 
 end SqlLineage.Props.C01
